@@ -74,7 +74,7 @@ func TestVerifC02(t *testing.T) {
 	var cfgs []c02Cfg
 	for _, root := range roots {
 		for _, ap := range vAssetPaths(root) {
-			if !vExtraWanted(root, ap, "x_thumbs_1s_before_text", "x_two_video_grids", "x_two_audio") {
+			if !vExtraWanted(root, ap, "x_thumbs_1s_before_text", "x_two_video_grids", "x_two_audio", "x_audio_441") {
 				continue
 			}
 			a, err := vAsset(root, ap)
